@@ -48,6 +48,10 @@ fn str_pool(big: bool) -> Vec<String> {
             v.push(s_of(l, 2));
         }
     }
+    // strings an encoder might be tempted to normalise: U+FEFF in front, inside, at the end; spaces at the ends; boundary code points
+    for t in ["\u{feff}", "\u{feff}lead", "in\u{feff}side", "trail\u{feff}", " lead", "trail ", "\u{7f}\u{80}", "\u{7ff}\u{800}", "\u{e000}mid\u{10ffff}"] {
+        v.push(t.to_string());
+    }
     v.dedup();
     v
 }
